@@ -644,6 +644,7 @@ static void gen_C04(const std::string &tier, uint64_t seed, long idx, Scn &s) {
   if (g.chance(0.3)) s.i["sw1"] = 8;
   if (is_prod()) { s.i["st1"] = simsched::ST_STICKY; s.i["sp1"] = 9999; s.i["sw1"] = 2; }
   if (!is_prod() && idx % 19 == 5) s.i["fresh"] = 1;
+  if (!is_prod() && s.i["op"] != 0 && g.chance(0.1)) { int t2 = 1 + (int)g.below(16); if (t2 != T) s.i["Tdec"] = t2; }
   if (!is_prod() && s.i["op"] == 0 && g.chance(0.15)) {
     if (g.chance(0.5)) s.i["rerr"] = (long)g.below((uint64_t)len + 1);
     else s.i["werr"] = (long)g.below((uint64_t)(48 + 20 * T + len + 16) + 1);
@@ -677,12 +678,13 @@ static Verdict run_C04(const Scn &s) {
     SimFile fin2, fout;
     fin2.data = fenc.data;
     OpSpec d = base_op(s, op == 1 ? OP_DEC : OP_VER, 1, &fin2, op == 1 ? &fout : nullptr, (long)fenc.data.size());
+    if (s.geti("Tdec", 0) > 0) { d.T = (int)s.geti("Tdec"); g_stats.add("fault.reader_thread_count_differs", 1); }   // the format does not record the writer's thread count
     r = run_slot(s, d, 1, op == 1 ? "dec" : "ver", HANG_VIOLATION);
   }
   // returning at all is the property; the scheduler's fail handler reports deadlock / budget / unjoined threads
   v.case_hash = fnv1a_u64(cfg_hash(s), r.sr.trace_hash);
   v.trace_hash = r.sr.trace_hash;
-  if (op != 2 && r.sr.threads_created != T) g_stats.add("probe.threads_created_ne_T", 1);
+  if (op != 2 && r.sr.threads_created != T && s.geti("Tdec", 0) == 0) g_stats.add("probe.threads_created_ne_T", 1);
   if (s.geti("enum")) {
     g_stats.add("enum.runs", 1);
     if (r.sr.decision_points > ENUM_MAXK) g_stats.add("enum.runs_with_more_decision_points_than_enumerated", 1);
